@@ -13,7 +13,7 @@ from pyvc.tree import (SEQ_ATTR as SeqAttr, ATTR_PAIR as AttrPair, PAT as Pat, A
                        FLAGS as Flags)
 from spec.vocab_tree import (parent, contents, idx, depth, is_tag, is_doc, is_navstr, is_comment, is_cdata, is_pi, is_decl,
                              is_doctype, text, name, prefix, namespace, is_xml_flag, next_sibling, previous_sibling, same,
-                             ascii_lower, ns_get, html_ns_map, fake_parent, rattrs, norm, as_str, is_str_val, ws_tokens, is_list_val, as_list, attr_ns, attr_local, pat_match, join_sp, NS_XHTML, NS_XML)
+                             ascii_lower, ns_get, html_ns_map, fake_parent, rattrs, norm, as_str, is_str_val, ws_tokens, is_list_val, as_list, attr_ns, attr_local, pat_match, join_sp, has_non_ws, strip_nonempty, wild_strip, py_lower, split_dash, NS_XHTML, NS_XML)
 from spec.vocab_ir import (sel_is_null, SEL_EMPTY, SEL_ROOT, SEL_DEFAULT, SEL_INDETERMINATE, SEL_SCOPE, SEL_DIR_LTR, SEL_DIR_RTL,
                            SEL_IN_RANGE, SEL_OUT_OF_RANGE, SEL_DEFINED, SEL_PLACEHOLDER_SHOWN, DIR_FLAGS, RANGES)
 
@@ -152,11 +152,6 @@ def sem_defined(m: M, el: Node) -> bool:
 
 
 @abstract
-def sem_root(m: M, el: Node) -> bool:
-    return _ref.sem_root(m, el)
-
-
-@abstract
 def sem_placeholder(m: M, el: Node) -> bool:
     return _ref.sem_placeholder(m, el)
 
@@ -221,11 +216,6 @@ def sem_nth(m: M, ns: NsMap, ifr: bool, el: Node, nth: SeqSelNth) -> bool:
 
 
 @abstract
-def sem_empty(m: M, el: Node) -> bool:
-    return _ref.sem_empty(m, el)
-
-
-@abstract
 def sem_lang(m: M, el: Node, langs: SeqSelLang) -> bool:
     return _ref.sem_lang(m, el, langs)
 
@@ -243,11 +233,6 @@ def sem_indeterminate(m: M, el: Node) -> bool:
 @abstract
 def sem_dir(m: M, el: Node, d: Flags) -> bool:
     return _ref.sem_dir(m, el, d)
-
-
-@abstract
-def sem_contains(m: M, el: Node, contains: SeqSelContains) -> bool:
-    return _ref.sem_contains(m, el, contains)
 
 
 @abstract
@@ -692,3 +677,126 @@ def all_attrs(m: M, ns: NsMap, el: Node, attrs: SeqSelAttr, i: int) -> bool:
 
 def sem_attrs(m: M, ns: NsMap, el: Node, attrs: SeqSelAttr) -> bool:
     return all_attrs(m, ns, el, attrs, 0)
+
+
+# ---------------------------------------------------------------------------------------------- :empty and :root (C01.O7, C19.O5)
+
+def empty_from(seq: SeqNode, i: int) -> bool:
+    """No node of seq[i:] is an element or a text node with a non-whitespace character (comments, CDATA, PIs ... do not count)."""
+    if i < 0 or i >= len(seq):
+        return True
+    if is_tag(seq[i]):
+        return False
+    if is_content(seq[i]) and has_non_ws(text(seq[i])):
+        return False
+    return empty_from(seq, i + 1)
+
+
+def sem_empty(m: M, el: Node) -> bool:
+    return empty_from(kids_spec(m, el, None, False, False, False), 0)
+
+
+def blocks_root(n: Node) -> bool:
+    """A sibling that prevents an element from being the root: an element, non-whitespace text, or CDATA."""
+    return is_tag(n) or (is_content(n) and strip_nonempty(text(n))) or is_cdata(n)
+
+
+def clear_before(n: Node) -> bool:
+    if n is None:
+        return True
+    return (not blocks_root(n)) and clear_before(previous_sibling(n))
+
+
+def clear_after(n: Node) -> bool:
+    if n is None:
+        return True
+    return (not blocks_root(n)) and clear_after(next_sibling(n))
+
+
+def sem_root(m: M, el: Node) -> bool:
+    """:root - the top element of its document (the pre-computed root, or in HTML a child of an iframe) with no other
+    element, text or CDATA next to it.  (Guarded reading, DESIGN 4.1: multi-rooted soups are not DOM documents.)"""
+    return is_root_el(m, el) and clear_before(previous_sibling(el)) and clear_after(next_sibling(el))
+
+
+# ---------------------------------------------------------------------------------------------- RFC 4647 3.3.2 extended filtering (C13.O1)
+# on subtag lists; the range has had its non-leading wildcards removed (they match any subtag sequence including none)
+
+def first_ok(R: SeqStr, T: SeqStr) -> bool:
+    """Step 2: the first subtags must match; '*' matches any non-empty first subtag."""
+    return not ((R[0] != '*' and R[0] != T[0]) or (R[0] == '*' and len(T) == 1 and T[0] == ''))
+
+
+def rest_ok(R: SeqStr, T: SeqStr, ri: int, ti: int) -> bool:
+    """Step 3 (A-E) from range subtag ri / tag subtag ti on."""
+    if ri >= len(R):
+        return True                       # the range is exhausted: match
+    if ti < 0 or ti >= len(T):
+        return False                      # B: ran out of tag subtags
+    if R[ri] == '':
+        return False                      # an empty subtag never matches
+    if T[ti] == R[ri]:
+        return rest_ok(R, T, ri + 1, ti + 1)   # C
+    if len(T[ti]) == 1:
+        return False                      # D: an implicit wildcard does not skip a singleton
+    return rest_ok(R, T, ri, ti + 1)      # E
+
+
+def elf(R: SeqStr, T: SeqStr) -> bool:
+    """(The empty range has the single subtag '' and therefore matches exactly the tags whose first and only subtag is '':
+    an explicitly empty language.)"""
+    return first_ok(R, T) and rest_ok(R, T, 1, 1)
+
+
+def lang_filter(rng: str, tag: str) -> bool:
+    return elf(split_dash(py_lower(wild_strip(rng))), split_dash(py_lower(tag)))
+
+
+# ---------------------------------------------------------------------------------------------- :-soup-contains (C19.O2, O3)
+
+@abstract
+def text_of(m: M, el: Node, no_iframe: bool) -> str:
+    """Concatenation, in document order, of the content strings among the descendants of el (iframe content skipped on request)."""
+    return _ref.text_of(m, el, no_iframe)
+
+
+@abstract
+def own_texts(m: M, el: Node, no_iframe: bool) -> SeqStr:
+    """The content strings that are direct children of el, each separately."""
+    return _ref.own_texts(m, el, no_iframe)
+
+
+def any_hay(needle: str, hays: SeqStr, i: int) -> bool:
+    """needle occurs within a single one of hays[i:]."""
+    if i < 0 or i >= len(hays):
+        return False
+    return needle in hays[i] or any_hay(needle, hays, i + 1)
+
+
+def any_needle_own(needles: SeqStr, hays: SeqStr, i: int) -> bool:
+    if i < 0 or i >= len(needles):
+        return False
+    return any_hay(needles[i], hays, 0) or any_needle_own(needles, hays, i + 1)
+
+
+def any_needle(needles: SeqStr, hay: str, i: int) -> bool:
+    if i < 0 or i >= len(needles):
+        return False
+    return needles[i] in hay or any_needle(needles, hay, i + 1)
+
+
+def one_contains(m: M, el: Node, c: SelContains) -> bool:
+    """Some listed text occurs in a single direct text child (own) / in the concatenated descendant text."""
+    if c.own:
+        return any_needle_own(c.text, own_texts(m, el, m.is_html), 0)
+    return any_needle(c.text, text_of(m, el, m.is_html), 0)
+
+
+def all_contains(m: M, el: Node, cs: SeqSelContains, i: int) -> bool:
+    if i < 0 or i >= len(cs):
+        return True
+    return one_contains(m, el, cs[i]) and all_contains(m, el, cs, i + 1)
+
+
+def sem_contains(m: M, el: Node, contains: SeqSelContains) -> bool:
+    return all_contains(m, el, contains, 0)
